@@ -55,8 +55,12 @@ def gen_bash(rng):
         return ('V%s=%s' % (u, u), '', 'assign:' + u)
     if r < 0.87:
         return ('echo %s >&2' % u, u + '\r\n', 'plain')
-    if r < 0.92:
+    if r < 0.90:
         return ('if true; then\n echo %s\nfi' % u, u + '\r\n', 'multiline')
+    if r < 0.93:
+        v = uid(rng)
+        return (rng.choice(["echo '%s\n\n%s'" % (u, v), "cat <<EOF\n%s\n\n%s\nEOF" % (u, v)]),
+                '%s\r\n\r\n%s\r\n' % (u, v), 'multiline')
     return (rng.choice(['echo "abc', 'for i in 1; do', 'if true; then', "echo 'x", 'echo $(']), None, 'incomplete')
 
 
@@ -80,8 +84,14 @@ def gen_py(rng):
         return ("import sys; _ = sys.stdout.write('%s'); sys.stdout.flush()" % u, u, 'nonl')
     if r < 0.82:
         return ("def f%s():\n    return '%s'\n" % (u, u), '', 'multiline')
-    if r < 0.9:
+    if r < 0.86:
         return ("print('%s'); print('%s')" % (u, u[::-1]), '%s\r\n%s\r\n' % (u, u[::-1]), 'plain')
+    if r < 0.9:
+        if rng.random() < 0.5:
+            # an interior empty line inside a string literal
+            return ("print('''%s\n\n%s''')" % (u, u[::-1]), '%s\r\n\r\n%s\r\n' % (u, u[::-1]), 'multiline')
+        # a block closed by an empty line, then another statement in the same call
+        return ("def h%s():\n    return '%s'\n\nprint(h%s())" % (u, u, u), u + '\r\n', 'multiline')
     return (rng.choice(['for i in range(3):', 'def g():', '(1 +', 'if True:', "'''abc"]), None, 'incomplete')
 
 
